@@ -112,6 +112,7 @@ func (i *jsonInputIter) Next() (any, bool) {
 			offset, line = &e.Offset, &i.line
 		} else if err == io.ErrUnexpectedEOF && i.ir.rs != nil {
 			if pos, err := i.ir.rs.Seek(0, io.SeekEnd); err == nil {
+				pos -= i.ir.start // offsets are relative to where the reading started
 				offset, line = &pos, &i.line
 			}
 		}
